@@ -21,10 +21,15 @@ C08OK(r) ==
     /\ r.len2 = r.dot                                              \* length2() is dot(self)
     /\ (FinAll(t, <<r.len2>>) => Within(t, r.len2, Dot(xs, xs)))
     /\ \A k \in 1..Len(r.forms) :
-         LET f == r.forms[k] IN
-         IF AllZero(xs)
-         THEN (f.s \in {"normalize", "normalized"} => ~Threw(f) /\ IsZeroVec(t, f.v))    \* zero maps to zero
-         ELSE NormIsNormal(t, xs) => (~Threw(f) /\ NormOK(t, xs, f.v))
+         \* (the bound name must not coincide with a formal parameter of the operators its fields are passed to: TLC evaluates
+         \*  arguments lazily, in the callee's context)
+         LET frm_ == r.forms[k] IN
+         \* never NaN or infinity, whatever the size of the norm (the NonNull forms have the non-null vector as precondition)
+         /\ ((~Threw(frm_) /\ ~(AllZero(xs) /\ frm_.s \in {"normalizeNonNull", "normalizedNonNull"})) =>
+                \A i \in 1..Len(frm_.v) : I!IsFinite(Fm(t), I!Dec(t, frm_.v[i])))
+         /\ IF AllZero(xs)
+            THEN (frm_.s \in {"normalize", "normalized"} => ~Threw(frm_) /\ IsZeroVec(t, frm_.v))    \* zero maps to zero
+            ELSE NormIsNormal(t, xs) => (~Threw(frm_) /\ NormOK(t, xs, frm_.v))
 
 \* C07: checked (Exc) vs unchecked -------------------------------------------------
 PairOK(r, unchecked, checked) ==
